@@ -179,7 +179,8 @@ end Match
 with `inherit` the callee sees the caller's input overlaid by `ov` (the caller's own definitions, the
 `environment:` of the dependency, variables/tools provided by earlier dependencies) and shares the caller's
 touched stack, without (`inherit: False`) it sees exactly `ov` (root environment + overrides, no tools) and
-shares nothing with the caller. -/
+shares nothing with the caller (since commit 4680878 also the tool diff recorded for such a dependency is
+independent of the caller's input: "start from no tools"). -/
 inductive PComp (K V X R : Type) where
   | ret (r : R)
   | get (k : K) (cont : Option V → PComp K V X R)
